@@ -332,6 +332,113 @@ def wire_scalars(types):
     return out
 
 
+def wire_deserializers(types):
+    """the two hand-written readers of scalar members.
+    TwoPointZero: handed to the deserializer as a string visitor (so every representation of the string - borrowed, owned, unescaped - reaches visit_str), which accepts exactly "2.0".
+    ErrorCode: the member is read as an i32 (an integer outside i32 is refused by serde, never wrapped) and that very value goes through From<i32>."""
+    out = []
+    # ---- TwoPointZero::deserialize
+    b = R.find_body(types, r"^fn params::<impl at types/src/params\.rs:[\d: ]+>::deserialize\(_1: D\) -> Result<TwoPointZero,")
+
+    def m_deser(ex, st, callee, args, dty, site):
+        meth = re.search(r"Deserializer<'_>>::(deserialize_\w+)", callee).group(1)
+        mv = re.search(r"::deserialize_\w+::<(.*)>$", callee)
+        _ev(st, f"driver:{meth}:{mv.group(1) if mv else ''}")
+        return Opaque(z3.Const("result_of_the_visitor", OBJ))
+
+    def m_leaf(ex, st, callee, args, dty, site):
+        m = re.match(r"^<(.*) as Deserialize<'_>>::deserialize::<", callee)
+        _ev(st, f"leaf:{m.group(1) if m else '?'}")
+        okb = z3.Bool("leaf.ok")
+        mi = re.fullmatch(r"[iu](8|16|32|64|128)", m.group(1)) if m else None
+        val = z3.BitVec("leaf.value", int(mi.group(1))) if mi else Opaque(z3.Const("leaf.value", OBJ))
+        return Fork([(okb, lambda ex_, st_, tr: ex_.mk_variant("Result", 0, "Ok", val)), (z3.Not(okb), lambda ex_, st_, tr: ex_.mk_variant("Result", 1, "Err", Opaque(z3.Const("leaf.error", OBJ))))])
+    models = [(r"^<D as params::_::_serde::Deserializer<'_>>::deserialize_\w+::<", m_deser), (r"^<.* as Deserialize<'_>>::deserialize::<D>$", m_leaf)] + list(SQ.TRY_MODELS)
+    ctx = P.make_ctx(types, extra_models=models, max_paths=200)
+    ctx.inline = []
+    ex = Executor(ctx)
+    ps = ex.run(b)
+    bad = [(p.kind, p.detail) for p in ps if p.kind != "return"]
+    viol, reach = [], []
+    for p in ps:
+        if p.kind != "return":
+            continue
+        seq = _seq(p)
+        reach.append(p.cond())
+        ok = len(seq) == 1 and re.fullmatch(r"driver:deserialize_(str|string|any|identifier):.*TwoPointZeroVisitor.*", seq[0]) is not None and "result_of_the_visitor" in str(to_term(ex.read_node(p.ret) if isinstance(p.ret, Node) and p.ret.val is not None else p.ret)) 
+        if not ok:
+            viol.append((p.cond(), f"the version member is read by {seq}", seq))
+    out.append(("prov:TwoPointZero::deserialize:string-visitor", b, viol, {"read": reach}, bad,
+                "the version member is handed to the deserializer as a string visitor (deserialize_str with the crate's own visitor) and its verdict is returned as is - "
+                "so any representation of the string, also one written with JSON escapes, is judged by visit_str", "c15_parse"))
+    # ---- the visitor: exactly "2.0"
+    try:
+        vb = R.find_body(types, r"^fn params::<impl at types/src/params\.rs:[\d: ]+>::visit_str\(_1: TwoPointZeroVisitor, _2: &str\)")
+    except LookupError as e_:
+        vb = None
+        out.append(("kernel:TwoPointZeroVisitor::visit_str", b, [], {"visitor": []}, [("site-missing", str(e_)[:200])], 'the version visitor accepts exactly the string "2.0"', "c15_parse"))
+    if vb is not None:
+        is20 = z3.Bool('text == "2.0"')
+
+        def m_streq(ex, st, callee, args, dty, site):
+            lits = [a.s for a in args if isinstance(a, StrConst)]
+            if lits == ["2.0"]:
+                return is20 if callee.endswith("::eq") else z3.Not(is20)
+            return NotImplemented
+        ctx = P.make_ctx(types, extra_models=[(r"^<str as PartialEq>::(eq|ne)$", m_streq), (r"as params::_::_serde::de::Error>::invalid_value$", lambda ex_, st, c, a, d, s_: Opaque(z3.Const("invalid_value", OBJ)))], max_paths=200)
+        ctx.inline = []
+        ex = Executor(ctx)
+        ps = ex.run(vb)
+        bad = [(p.kind, p.detail) for p in ps if p.kind != "return"]
+        viol, reach = [], {"accepted": [], "refused": []}
+        for p in ps:
+            if p.kind != "return":
+                continue
+            d = z3.simplify(ex.discr_of(p.ret))
+            if not z3.is_bv_value(d):
+                bad.append(("unsupported", "result discriminant"))
+                continue
+            if d.as_long() == 0:
+                reach["accepted"].append(z3.And(p.cond(), is20))
+                viol.append((z3.And(p.cond(), z3.Not(is20)), "a version other than \"2.0\" is accepted", []))
+            else:
+                reach["refused"].append(z3.And(p.cond(), z3.Not(is20)))
+                viol.append((z3.And(p.cond(), is20), "the version \"2.0\" is refused", []))
+        out.append(("kernel:TwoPointZeroVisitor::visit_str", vb, viol, reach, bad, 'the version visitor accepts exactly the string "2.0"', "c15_parse"))
+    # ---- ErrorCode::deserialize
+    b = R.find_body(types, r"^fn error::<impl at types/src/error\.rs:[\d: ]+>::deserialize\(_1: D\) -> Result<ErrorCode,")
+    models = [(r"^<.* as Deserialize<'_>>::deserialize::<D>$", m_leaf),
+              (r"^<ErrorCode as From<i32>>::from$", lambda ex_, st, c, a, d, s_: (_ev(st, "from:" + str(to_term(a[0]))), Opaque(z3.Const("kind_of_code", OBJ)))[1])] + list(SQ.TRY_MODELS)
+    ctx = P.make_ctx(types, extra_models=models, max_paths=200)
+    ctx.inline = []
+    ex = Executor(ctx)
+    ps = ex.run(b)
+    bad = [(p.kind, p.detail) for p in ps if p.kind != "return"]
+    okb = z3.Bool("leaf.ok")
+    viol, reach = [], {"read": [], "refused": []}
+    for p in ps:
+        if p.kind != "return":
+            continue
+        seq = _seq(p)
+        d = z3.simplify(ex.discr_of(p.ret))
+        if not z3.is_bv_value(d):
+            bad.append(("unsupported", "result discriminant"))
+            continue
+        pc = p.cond()
+        if d.as_long() == 0:
+            reach["read"].append(z3.And(pc, okb))
+            good = seq == ["leaf:i32", "from:leaf.value"] and "kind_of_code" in str(to_term(ex.read_node(p.ret.kids[("Ok", 0)])))
+            viol.append((z3.Or(z3.And(pc, z3.Not(okb)), z3.And(pc, z3.BoolVal(not good))), f"the error code is read as {seq}", seq))
+        else:
+            reach["refused"].append(z3.And(pc, z3.Not(okb)))
+            good = seq == ["leaf:i32"]
+            viol.append((z3.Or(z3.And(pc, okb), z3.And(pc, z3.BoolVal(not good))), f"a refused code: {seq}", seq))
+    out.append(("prov:ErrorCode::deserialize:i32-then-from", b, viol, reach, bad,
+                "an error code member is read as an i32 - so an integer outside i32 is refused by the reader, never wrapped - and exactly that value goes through From<i32> "
+                "(decided for all i32 by the Kani harnesses); a read error is handed on", "c15_parse"))
+    return out
+
+
 def response_serializer(types):
     """<Response as Serialize>::serialize against a recording serializer: the members written, for every shape of the response and every failure point"""
     b = R.find_body(types, r"^fn response::<impl at types/src/response\.rs:[\d: ]+>::serialize\(_1: &response::Response<'_, T>, _2: S\)")
@@ -569,8 +676,10 @@ def obligations(tier, seed):
     units = [(f"order:{n}::serialize:members", ) + wire_struct(types, n) + (f"a {n} is written as one object with exactly the members JSON-RPC 2.0 gives it - "
               + ", ".join(f"{mem}{' (only when present)' if o else ''}" for mem, _, o in WIRE_STRUCTS[n][2]) + " - each from the field of that name, in that order; a failing write ends the serialisation with that error",)
              for n in WIRE_STRUCTS]
-    units += [(f"kernel:{ty}::serialize", b_, viol_, reach_, bad_, desc_) for ty, b_, viol_, reach_, bad_, desc_ in wire_scalars(types)]
-    for name, b, viol, reach, bad, desc in units:
+    units = [u + ("c15_serialize",) for u in units]
+    units += [(f"kernel:{ty}::serialize", b_, viol_, reach_, bad_, desc_, "c15_serialize") for ty, b_, viol_, reach_, bad_, desc_ in wire_scalars(types)]
+    units += wire_deserializers(types)
+    for name, b, viol, reach, bad, desc, scen in units:
         reach_l = R.live_reach(viol, reach, bad)
         if bad or not all(reach_l):
             out.append(R.Result(engine="mirsym", name=name, kind="order", status="unsupported" if bad else "vacuous", detail=str(bad[:1] or {k: len(v) for k, v in reach.items()})[:300], bodies=[b.name]))
@@ -578,7 +687,7 @@ def obligations(tier, seed):
         qs = R._viol_terms(viol)
         r = R.decide(name, "order", z3.Or(*qs) if qs else z3.BoolVal(False), [z3.Or(*v) for v in reach_l], bodies=[b.name], desc=desc,
                      bounds="every presence combination of the optional members / every variant; every failure point of the (generic) serializer; derive-generated code as rustc expanded it",
-                     keydetail="wire-serializer:" + name.split(":")[1], replay=dict(scenario="c15_serialize", vars={}, fixed={}, region=z3.BoolVal(True)))
+                     keydetail="wire:" + name.split(":")[1], replay=dict(scenario=scen, vars={}, fixed={}, region=z3.BoolVal(True)))
         if r["status"] == "violated":
             r["detail"] = first_sat(viol)
         out.append(r)
